@@ -22,6 +22,10 @@ def run(tier):
     vlib.build_harness()
     V = vlib.Verdicts(PID)
     progs, lr = langlib.corpus("c20", 4 if tier == "quick" else 5, langlib.ALL_PRODS, roots=("I", "R", "O", "F1"), rng_seed=seed, sample=250 if tier == "quick" else 4000)
+    # a corpus focused on patterns (record patterns binding fields under other names, tuple and option patterns)
+    pats, _lr2 = langlib.corpus("c20pat", 5 if tier == "quick" else 6, ["var", "lit", "add", "let", "mkr", "mkp", "mrec", "mtup", "some", "mopt", "lam1"],
+                                roots=("I", "F1"), rng_seed=seed + 1, sample=200 if tier == "quick" else 4000)
+    progs = progs + [o for o in pats if any(n[0] in ("mrec", "mtup", "mopt") for n in o["p"])]
     cfg = "SPECIFICATION Spec\nCONSTANTS\n  Slots = 12\n  MaxEdits = 1\n  Emit = TRUE\nINVARIANTS SmallEdit EmitScript\nCHECK_DEADLOCK FALSE\n"
     open(os.path.join(vlib.SPEC, "_c20.cfg"), "w").write(cfg)
     mt = vlib.run_tlc("Mutate", "_c20", workers=2, timeout=600, print_prefix='"EDIT"')
@@ -40,7 +44,7 @@ def run(tier):
     res = vlib.run_pool(["lang"], jobs, workers=14, job_timeout=120)
     wd = vlib.workdir("c20")
     trace = os.path.join(wd, "trace.ndjson")
-    queries = typed_checks = 0
+    queries = typed_checks = full_checks = 0
     with open(trace, "w") as f:
         for j in jobs:
             r = res.get(j["id"])
@@ -60,6 +64,9 @@ def run(tier):
             if kind == "complete" and v["typed"] and vars_:
                 finds = dict((a, b) for a, b in v["finds"])
                 sugg = dict((a, b) for a, b in v["suggests"])
+                # names offered where the main expression starts: the prelude and what the preamble binds
+                start = len(langlib.PREAMBLE)
+                always = set(sugg.get(start, [])) or None
                 for off, idx, ty, depth in vars_:
                     typed_checks += 1
                     want = langlib.GLUON_TYPE.get(ty)
@@ -73,13 +80,26 @@ def run(tier):
                     if bad:
                         scope_ok = False
                         V.violation("suggestion-out-of-scope", "at byte %d (inside v%d, %d binders in scope) the completion suggests %s\n%s" % (off + 1, idx, depth, bad, j["src"]), dict(rep, offset=off + 1))
+                    # completion with an empty prefix just before the occurrence (on the `(` or blank): everything that is
+                    # not offered at the start of the program must be one of the enclosing binders - in particular not the
+                    # label of a record-pattern field that is bound under another name
+                    # (asked only where the occurrence follows " (": next to the end of another expression the engine answers
+                    # for that expression, which is a different question)
+                    full = sugg.get(off - 1, []) if off >= 2 and j["src"][off - 1] in " (" and j["src"][off - 2] in " (>=,+-*<|&" else []
+                    if len(full) > 5 and always is not None:
+                        full_checks += 1
+                        extra = [n for n in full if n not in always and not (re.fullmatch(r"v\d+", n) and int(n[1:]) <= depth)]
+                        if extra:
+                            scope_ok = False
+                            cls = sorted({"wildcard" if n == "_" else "label" if n in ("x", "y") else "variable" if re.fullmatch(r"v\d+", n) else "other" for n in extra})
+                            V.violation("suggestion-not-a-binder:" + "+".join(cls), "at byte %d (%d binders in scope) the completion offers %s, which no enclosing pattern binds\n%s" % (off - 1, depth, extra, j["src"]), dict(rep, offset=off - 1))
             f.write(json.dumps({"returned": returned, "type_ok": type_ok, "scope_ok": scope_ok}) + "\n")
     tv = vlib.run_tlc("Editor", "Trace_Editor", workers=1, timeout=900, env={"TRACE": trace}, dfs=True, xss="1g", xmx="4g")
     if tv.violation and not V.violations and not V.known_hits:
         V.violation("trace-rejected", "Editor.tla rejects the recorded events: %s" % tv.out[-300:], {})
     rc = V.finish()
     vlib.write_evidence(PID, tier, "exploration", {
-        "evaluations": queries, "distinct_nontrivial": len(res), "identifier_type_checks": typed_checks, "trace_accepted_by_tlc": tv.violation is None,
+        "evaluations": queries, "empty_prefix_scope_checks": full_checks, "distinct_nontrivial": len(res), "identifier_type_checks": typed_checks, "trace_accepted_by_tlc": tv.violation is None,
         "rule": "Lang.tla programs (complete, and with one Mutate.tla edit: a token deleted or the text truncated at a token boundary), five queries at every byte offset; identifier types and suggestion scopes are checked at every variable occurrence of the complete programs; non-trivial = programs queried",
         "samples": [jobs[0]["src"][-200:]], "known_findings_hit": {k: v[1] for k, v in V.known_hits.items()},
     }, ["programs that do not typecheck are queried on the partially parsed tree (totality only)",
